@@ -10,7 +10,7 @@ for p in "$PWD"/selftest/*${pat}*.patch; do
   prop=$(basename "$p" | sed 's/__.*//')
   if ! git -C /repo apply --check "$p" 2>/dev/null; then echo "SKIP  $p (does not apply)"; continue; fi
   git -C /repo apply "$p"
-  out=$(./check "$prop" 2>&1); rc=$?
+  out=$(VERIF_NO_EVIDENCE=1 ./check "$prop" 2>&1); rc=$?
   git -C /repo apply -R "$p"
   if [ $rc -eq 1 ]; then ok=$((ok+1)); echo "KILLED   $p  by: $(echo "$out" | grep -o 'obligation=[^ ]*\|replay=[^ ]*' | head -2 | tr '\n' ' ')";
   else bad=$((bad+1)); echo "SURVIVED $p (rc=$rc)"; fi
